@@ -101,7 +101,7 @@ def main(tier, replay=None):
         cs = cases(rng, quick)
     # heap objects whose deletion is issued by an owning Box's destructor during a sweep (both orders of owner / owned
     # on the pending list occur among a few hundred pairs)
-    owned = [["reset", "owned %d %d %s" % (rng.choice([50, 200, 400]), ch, how)] for ch in (0, 1) for how in ("force", "churn") for _ in range(2 if quick else 8)]
+    owned = [["reset", "owned %d %d %s" % (rng.choice([50, 200, 400]), ch, how)] for ch in (0, 1, 2) for how in ("force", "churn") for _ in range(2 if quick else 8)]
     camp.run([], owned, "owned")
     chk.cov["rule"] = ("an execution = one object obtained in one of 23 ways (x value type) followed by a sequence of disposing "
                        "operations; TLC checks type, allocation class, usable size, release exactly once for heap objects, refusal "
